@@ -557,9 +557,14 @@ Lemma phase1_inhabited_file_render T noformat fmt wfail fsfail strval (m : resul
                              (src_of (body_of n_file_render)) m.
 Proof.
   destruct m as [[t raw]|msg].
-  - exists (quiet_orc (probe_step (body_of n_file_render)) raw). cbn [phase1_matches].
+  - let k := eval vm_compute in (probe_step (body_of n_file_render)) in exists (quiet_orc k raw).
+    cbn [phase1_matches].
+    let p := eval vm_compute in (pre_of (body_of n_file_render)) in change (pre_of (body_of n_file_render)) with p.
+    let p := eval vm_compute in (src_of (body_of n_file_render)) in change (src_of (body_of n_file_render)) with p.
     lazy -[app]. do 2 eexists. split; [reflexivity|]. cbn [app]. rewrite ?app_nil_r. reflexivity.
-  - exists (panic_orc msg). cbn [phase1_matches]. lazy. eexists. reflexivity.
+  - exists (panic_orc msg). cbn [phase1_matches].
+    let p := eval vm_compute in (pre_of (body_of n_file_render)) in change (pre_of (body_of n_file_render)) with p.
+    lazy. eexists. reflexivity.
 Qed.
 
 Lemma phase1_inhabited_stmt_rwf T noformat fmt wfail fsfail strval (m : result (T * str)) :
@@ -568,7 +573,28 @@ Lemma phase1_inhabited_stmt_rwf T noformat fmt wfail fsfail strval (m : result (
                              (src_of (body_of n_stmt_rwf)) m.
 Proof.
   destruct m as [[t raw]|msg].
-  - exists (quiet_orc (probe_step (body_of n_stmt_rwf)) raw). cbn [phase1_matches].
+  - let k := eval vm_compute in (probe_step (body_of n_stmt_rwf)) in exists (quiet_orc k raw).
+    cbn [phase1_matches].
+    let p := eval vm_compute in (pre_of (body_of n_stmt_rwf)) in change (pre_of (body_of n_stmt_rwf)) with p.
+    let p := eval vm_compute in (src_of (body_of n_stmt_rwf)) in change (src_of (body_of n_stmt_rwf)) with p.
     lazy -[app]. do 2 eexists. split; [reflexivity|]. cbn [app]. rewrite ?app_nil_r. reflexivity.
-  - exists (panic_orc msg). cbn [phase1_matches]. lazy. eexists. reflexivity.
+  - exists (panic_orc msg). cbn [phase1_matches].
+    let p := eval vm_compute in (pre_of (body_of n_stmt_rwf)) in change (pre_of (body_of n_stmt_rwf)) with p.
+    lazy. eexists. reflexivity.
+Qed.
+
+Lemma phase1_inhabited_group_rwf T noformat fmt wfail fsfail strval (m : result (T * str)) :
+  exists orc, phase1_matches (run orc noformat fmt wfail fsfail strval no_sub
+                                  (block (pre_of (body_of n_group_rwf))) st0 0)
+                             (src_of (body_of n_group_rwf)) m.
+Proof.
+  destruct m as [[t raw]|msg].
+  - let k := eval vm_compute in (probe_step (body_of n_group_rwf)) in exists (quiet_orc k raw).
+    cbn [phase1_matches].
+    let p := eval vm_compute in (pre_of (body_of n_group_rwf)) in change (pre_of (body_of n_group_rwf)) with p.
+    let p := eval vm_compute in (src_of (body_of n_group_rwf)) in change (src_of (body_of n_group_rwf)) with p.
+    lazy -[app]. do 2 eexists. split; [reflexivity|]. cbn [app]. rewrite ?app_nil_r. reflexivity.
+  - exists (panic_orc msg). cbn [phase1_matches].
+    let p := eval vm_compute in (pre_of (body_of n_group_rwf)) in change (pre_of (body_of n_group_rwf)) with p.
+    lazy. eexists. reflexivity.
 Qed.
